@@ -23,6 +23,7 @@ def build_tonl(sc, sid):
     files = []
     tags = {}
     spells = set()
+    extra_types = []
     n = 100
     for fidx, fl in enumerate(sc["files"], 1):
         name = "%s/f%d%s.go" % (pkg, fidx, "_test" if fl["test"] else "")
@@ -40,7 +41,11 @@ def build_tonl(sc, sid):
             params = ""
             if u in ("callM", "callPM"):
                 params = "s%d %sS" % (n, q)
-            recv = "(h%d *H) " % n if ctx in ("pmeth", "tometh") else ""
+            recv = "(h%d *H) " % n if ctx in ("pmeth", "tometh", "pmethTF") else ""
+            fname = "TF" if ctx == "pmethTF" else "fn%d" % n   # a method named like the @testonly function (each on its own receiver type)
+            if ctx == "pmethTF":
+                recv = "(h%d *HT%d) " % (n, n)
+                extra_types.append("type HT%d struct{}" % n)
             if u == "fieldTT":
                 out.add("type H%d struct {" % n)
                 out.tagged(key, "f%d %s" % (n, TT))
@@ -57,12 +62,13 @@ def build_tonl(sc, sid):
                 out.add("\treturn nil", "}", "")
                 continue
             out.add(*doc)
-            out.add("func %sfn%d(%s) {" % (recv, n, params))
+            out.add("func %s%s(%s) {" % (recv, fname, params))
             pre, post = [], []
             stmt = {
                 "callF": "_ = %sTF(%d)" % (q, n),
                 "callM": "_ = s%d.TM(%d)" % (n, n),
                 "callMvar": "_ = gs.TM(%d)" % n,
+                "callFlit": "_ = %sTF(%sTT{X: %d}.X)" % (q, q, n),
                 "callPF": "_ = %sPF(%d)" % (q, n),
                 "callPM": "_ = s%d.PM(%d)" % (n, n),
                 "shadow": "_ = TF(%d)" % n,
@@ -89,6 +95,8 @@ def build_tonl(sc, sid):
         h.add("type TA = %sTT" % q, "")
     if "ptralias" in spells:
         h.add("type TP = *%sTT" % q, "")
+    for t in extra_types:
+        h.add(t, "")
     files.append(h)
     gofiles = []
     uses_o = False
